@@ -2,8 +2,13 @@
    internal/heap/heap.go (Heap/Model.v: New / Push / Pop with percolateUp / percolateDown), so
    the tie-breaking between less-equivalent items is the implementation's.
    Iterators handed to Merge / MinK are slice iterators and are modelled by the list of items
-   they still have to yield.  xsort.Slice / SliceStable (thin wrappers over sort.Slice /
-   sort.SliceStable) are not modelled.  No proofs in this file. *)
+   they still have to yield.  xsort.Slice / SliceStable are thin wrappers over sort.Slice /
+   sort.SliceStable (standard library, A2.9: modelled from the documentation): the model of
+   SliceStable is the stable insertion sort [slice_stable], which ProofsSort.v proves to be THE
+   sorted, stable rearrangement of its input (slice_stable_unique), so it stands for every
+   correct stable sorting algorithm; Slice (not stable) is specified relative to it: any
+   rearrangement that differs from [slice_stable] only inside classes of equivalent items
+   ([slice_allowed], ProofsSort.slice_spec).  No proofs in this file. *)
 From Juniper Require Import Common.Base Pure.Slices Heap.Model.
 
 Definition ordered_less (a b : Z) : bool := a <? b.
@@ -25,6 +30,41 @@ Section Sort.
     | S i' => if less (znth x (Z.of_nat i)) (znth x (Z.of_nat i')) then false else is_sorted_loop x i'
     end.
   Definition slice_is_sorted (x : list Z) : bool := is_sorted_loop x (length x - 1).
+
+  (* sort.SliceStable(x, less): "sorts the slice x using the provided less function, keeping
+     equal elements in their original order".  [insert_stable x l] puts x in front of the first
+     item that is not less than x - after every smaller item, before every equivalent one - and
+     the sort inserts the items from the last to the first, so an earlier item ends up in front
+     of the later items equivalent to it. *)
+  Fixpoint insert_stable (x : Z) (l : list Z) : list Z :=
+    match l with
+    | [] => [x]
+    | y :: t => if less y x then y :: insert_stable x t else x :: l
+    end.
+  Definition slice_stable (x : list Z) : list Z := fold_right insert_stable [] x.
+
+  (* sort.Slice(x, less): "sorts the slice x given the provided less function ... The sort is not
+     guaranteed to be stable".  The results the documentation allows for the input x: a
+     rearrangement of x that agrees with slice_stable x position by position up to equivalence
+     (= a sorted permutation of x, ProofsSort.slice_spec).  [same_items]: equal as multisets. *)
+  Fixpoint take_out (x : Z) (l : list Z) : option (list Z) :=
+    match l with
+    | [] => None
+    | y :: t => if x =? y then Some t else option_map (cons y) (take_out x t)
+    end.
+  Fixpoint same_items (a b : list Z) : bool :=
+    match a with
+    | [] => match b with [] => true | _ => false end
+    | x :: a' => match take_out x b with Some b' => same_items a' b' | None => false end
+    end.
+  Fixpoint all2 (f : Z -> Z -> bool) (a b : list Z) : bool :=
+    match a, b with
+    | [], [] => true
+    | x :: a', y :: b' => f x y && all2 f a' b'
+    | _, _ => false
+    end.
+  Definition slice_allowed (x out : list Z) : bool :=
+    same_items out (slice_stable x) && all2 equal_ out (slice_stable x).
 
   (* sort.Search: i, j := 0, n; for i < j { h := int(uint(i+j) >> 1); if !f(h) { i = h + 1 } else { j = h } }; return i *)
   Fixpoint search_loop (f : Z -> bool) (fuel : nat) (i j : Z) : Z :=
